@@ -2344,7 +2344,13 @@ class AV:
                     field = str(auto)
                     auto += 1
                 head = field.split(".")[0].split("[")[0]
-                if head.isdigit() and int(head) < len(args):
+                spread_at = next((i for i, a_ in enumerate(args) if a_[0] == "spread"), None)
+                if head.isdigit() and spread_at is not None and int(head) >= spread_at:
+                    # "...".format(a, *seq): the fields from the star on are the elements of seq
+                    if spread_at != len(args) - 1:
+                        return unk("format with a starred argument that is not the last one")
+                    v = mk_sub(args[spread_at][1], C(int(head) - spread_at))
+                elif head.isdigit() and int(head) < len(args):
                     v = args[int(head)]
                 elif head in kw:
                     v = kw[head]
